@@ -113,4 +113,132 @@ Section RemS.
         destruct (GK j jn Hjn NJ) as [jn2 [F1 [F2 F3]]].
         exists j, jn2. split; [apply R11; auto|]. split; auto. unfold kv_of. now rewrite F2, F3.
   Qed.
+
+  (** ** the three removal operations on any state *)
+  Lemma POwn_data : forall t : pstate, POwn t -> p_contents t <> [] ->
+    exists r0 rn0 c0 T, PInvN t r0 rn0 c0 T /\ owns T /\ NoDup (leaves T) /\ In r0 (leaves T).
+  Proof.
+    intros t O NE. unfold POwn in O. destruct (proot t) as [r0|] eqn:R.
+    - destruct O as [rn0 [c0 [T Q]]]. eauto.
+    - exfalso. apply NE. unfold p_contents, p_tree. now rewrite R.
+  Qed.
+
+  Lemma POwn_of_empty : forall t' : pstate, proot t' = None -> psize t' = 0 -> POwn t' /\ p_contents t' = [].
+  Proof.
+    intros t' R Z. split; [unfold POwn; now rewrite R|]. unfold p_contents, p_tree. now rewrite R.
+  Qed.
+
+  Lemma leaf_tree : forall T, is_leaf T = true -> exists c, T = PLeaf c.
+  Proof. intros [c|i a b] H; [eauto | discriminate]. Qed.
+
+  Lemma entries_valid : forall (h : heap) pbp c T, Rep h pbp c T ->
+    forall j js, leaves T = j :: js -> exists jn, nth_error h j = Some jn.
+  Proof.
+    intros h pbp c T R j js E. destruct (rep_valid _ _ _ _ R) as [_ VL].
+    assert (L : (j < length h)%nat) by (apply VL; rewrite E; simpl; auto).
+    destruct (nth_error h j) eqn:F; eauto. apply nth_error_None in F. lia.
+  Qed.
+
+  Theorem p_delete_held : forall (t : pstate) k v, POwn t -> sget k (p_contents t) = Some v ->
+    exists t', p_delete t k = ROk (t', Some v) /\ POwn t' /\ p_contents t' = sdel k (p_contents t).
+  Proof.
+    intros t k v O G. pose proof (POwn_PInv t O) as PI. pose proof (PInv_sorted t PI) as SO.
+    destruct (POwn_data t O) as [r0 [rn0 [c0 [T [I [OW [NDl RL]]]]]]]; [intros E; rewrite E in G; discriminate|].
+    pose proof (sget_In _ _ _ G) as IN. apply (contents_In t r0 rn0 c0 T) in IN as [j [jn [Hj [Hjn EQ]]]]; auto.
+    injection EQ as EK EV.
+    assert (TS : tsearch (pheap t) k T = j).
+    { rewrite <- (key_unique t r0 rn0 c0 T j I Hj). unfold nkey. now rewrite Hjn, <- EK. }
+    unfold p_delete. rewrite (q_root _ _ _ _ _ I).
+    destruct (is_leaf T) eqn:LF.
+    - destruct (leaf_tree T LF) as [c ET]. subst T.
+      assert (C0 : c = c0) by (pose proof (q_rep _ _ _ _ _ I) as R; inversion R; auto).
+      subst c. pose proof (q_single _ _ _ _ _ I) as SG. simpl in SG. simpl in Hj. destruct Hj as [EJ | []].
+      assert (EQn : jn = rn0). { pose proof (q_rn _ _ _ _ _ I) as Q. rewrite <- SG, EJ, Hjn in Q. congruence. }
+      subst jn.
+      destruct (single_remove t r0 rn0 c0 (ByKey k) (fun nn => keqb (n_key nn) k) I) as [t' [D [R0 Z0]]];
+        [rewrite <- EK; apply keqb_refl|].
+      rewrite D. cbn [rbind fst snd]. exists t'. rewrite <- EV. split; auto.
+      destruct (POwn_of_empty t' R0 Z0) as [O' C']. split; auto. rewrite C'.
+      rewrite (single_contents t r0 rn0 c0 I). unfold kv_of. simpl. rewrite <- EK. now rewrite keqb_refl.
+    - assert (HN : nth_error (pheap t) (tsd (pheap t) (ByKey k) T) = Some jn) by (now rewrite tsd_bykey, TS).
+      destruct (p_delete_dir_correct t (ByKey k) (fun nn => keqb (n_key nn) k) r0 rn0 c0 T jn I OW NDl RL LF HN)
+        as [t' [D [O' C']]]; [rewrite <- EK; apply keqb_refl|].
+      rewrite D. cbn [rbind fst snd]. exists t'. rewrite <- EV. split; auto. split; auto.
+      apply sorted_ext; [apply PInv_sorted; now apply POwn_PInv | now apply sdel_sorted |].
+      intros e. rewrite C', sdel_In_iff by exact SO. now rewrite <- EK.
+  Qed.
+
+  Lemma tsd_left : forall (h : heap) T, exists js, leaves T = tsd h GoLeft T :: js.
+  Proof.
+    induction T as [i|i l [js IHl] rr _]; simpl; eauto. rewrite IHl. simpl. eauto.
+  Qed.
+
+  Lemma tsd_right : forall (h : heap) T, exists js, leaves T = js ++ [tsd h GoRight T].
+  Proof.
+    induction T as [i|i l _ rr [js IHr]]; simpl; [exists []; auto|]. rewrite IHr.
+    exists (leaves l ++ js). now rewrite app_assoc.
+  Qed.
+
+  Theorem p_deletemin_held : forall (t : pstate) e0 m', POwn t -> p_contents t = e0 :: m' ->
+    exists t', p_deletemin t = ROk (t', Some e0) /\ POwn t' /\ p_contents t' = m'.
+  Proof.
+    intros t e0 m' O C. pose proof (POwn_PInv t O) as PI. pose proof (PInv_sorted t PI) as SO.
+    destruct (POwn_data t O) as [r0 [rn0 [c0 [T [I [OW [NDl RL]]]]]]]; [rewrite C; discriminate|].
+    unfold p_deletemin. rewrite (q_root _ _ _ _ _ I).
+    destruct (is_leaf T) eqn:LF.
+    - destruct (leaf_tree T LF) as [c ET]. subst T.
+      assert (C0 : c = c0) by (pose proof (q_rep _ _ _ _ _ I) as R; inversion R; auto). subst c.
+      rewrite (single_contents t r0 rn0 c0 I) in C. injection C as <- <-.
+      destruct (single_remove t r0 rn0 c0 GoLeft (fun _ => true) I eq_refl) as [t' [D [R0 Z0]]].
+      rewrite D. exists t'. split; auto. now apply POwn_of_empty.
+    - destruct (tsd_left (pheap t) T) as [js EL].
+      destruct (entries_valid _ _ _ _ (q_rep _ _ _ _ _ I) _ _ EL) as [nn Hn].
+      assert (E0 : e0 = kv_of nn).
+      { pose proof (PInvN_tree t r0 rn0 c0 T I) as PT. unfold p_contents in C. rewrite PT in C.
+        unfold entries in C. rewrite EL in C. simpl in C. rewrite Hn in C. simpl in C. now injection C. }
+      destruct (p_delete_dir_correct t GoLeft (fun _ => true) r0 rn0 c0 T nn I OW NDl RL LF Hn eq_refl)
+        as [t' [D [O' C']]].
+      rewrite D. exists t'. rewrite E0. split; auto. split; auto.
+      rewrite C in SO. apply sorted_cons_inv in SO as [SO' F]. rewrite Forall_forall in F.
+      apply sorted_ext; [apply PInv_sorted; now apply POwn_PInv | exact SO' |].
+      intros e. rewrite C', C. subst e0. split.
+      + intros [[<- | H] NE]; auto. simpl in NE. congruence.
+      + intros H. split; [right; auto|]. intros EQ. apply F in H. unfold elt in H. simpl in H.
+        rewrite EQ in H. now apply klt_irrefl in H.
+  Qed.
+
+  Theorem p_deletemax_held : forall (t : pstate) e0 m', POwn t -> p_contents t = m' ++ [e0] ->
+    exists t', p_deletemax t = ROk (t', Some e0) /\ POwn t' /\ p_contents t' = m'.
+  Proof.
+    intros t e0 m' O C. pose proof (POwn_PInv t O) as PI. pose proof (PInv_sorted t PI) as SO.
+    destruct (POwn_data t O) as [r0 [rn0 [c0 [T [I [OW [NDl RL]]]]]]]; [rewrite C; now destruct m'|].
+    unfold p_deletemax. rewrite (q_root _ _ _ _ _ I).
+    destruct (is_leaf T) eqn:LF.
+    - destruct (leaf_tree T LF) as [c ET]. subst T.
+      assert (C0 : c = c0) by (pose proof (q_rep _ _ _ _ _ I) as R; inversion R; auto). subst c.
+      rewrite (single_contents t r0 rn0 c0 I) in C.
+      assert (m' = [] /\ e0 = kv_of rn0) as [-> ->].
+      { destruct m' as [|x [|y m2]]; simpl in C; [injection C as <-; auto | discriminate | discriminate]. }
+      destruct (single_remove t r0 rn0 c0 GoRight (fun _ => true) I eq_refl) as [t' [D [R0 Z0]]].
+      rewrite D. exists t'. split; auto. now apply POwn_of_empty.
+    - destruct (tsd_right (pheap t) T) as [js EL].
+      assert (VJ : exists nn, nth_error (pheap t) (tsd (pheap t) GoRight T) = Some nn).
+      { destruct (rep_valid _ _ _ _ (q_rep _ _ _ _ _ I)) as [_ VL].
+        assert (L : (tsd (pheap t) GoRight T < length (pheap t))%nat) by (apply VL; rewrite EL; apply in_or_app; simpl; auto).
+        destruct (nth_error (pheap t) (tsd (pheap t) GoRight T)) eqn:F; eauto. apply nth_error_None in F. lia. }
+      destruct VJ as [nn Hn].
+      assert (E0 : e0 = kv_of nn).
+      { pose proof (PInvN_tree t r0 rn0 c0 T I) as PT. unfold p_contents in C. rewrite PT in C.
+        unfold entries in C. rewrite EL, flat_map_app, map_app in C. simpl in C. rewrite Hn in C. simpl in C.
+        apply app_inj_tail in C as [_ C]. now symmetry. }
+      destruct (p_delete_dir_correct t GoRight (fun _ => true) r0 rn0 c0 T nn I OW NDl RL LF Hn eq_refl)
+        as [t' [D [O' C']]].
+      rewrite D. exists t'. rewrite E0. split; auto. split; auto.
+      rewrite C in SO. apply sorted_app_inv in SO as [SO' [_ F]].
+      apply sorted_ext; [apply PInv_sorted; now apply POwn_PInv | exact SO' |].
+      intros e. rewrite C', C, in_app_iff. subst e0. split.
+      + intros [[H | [<- | []]] NE]; auto. simpl in NE. congruence.
+      + intros H. split; auto. intros EQ. specialize (F e (kv_of nn) H (or_introl eq_refl)).
+        unfold elt in F. rewrite EQ in F. simpl in F. now apply klt_irrefl in F.
+  Qed.
 End RemS.
